@@ -3,7 +3,7 @@
    model/Emit.v (Segment::emit + CodegenContext::emit + macro re-attribution).  Spec: spec/ListingSpec.v. *)
 From Coq Require Import List NArith ZArith Bool Permutation Lia.
 Import ListNotations.
-From Mos Require Import model.SourceMap model.Listing spec.ListingSpec proofs.ListingProofs.
+From Mos Require Import model.SourceMap model.Listing model.Emit spec.ListingSpec proofs.ListingProofs proofs.EmitProofs model.ListingFiles proofs.ListingFilesProofs.
 Open Scope Z_scope.
 
 (* For ALL code maps, segment tables and source maps that are well formed emissions (every entry records the target
@@ -27,6 +27,15 @@ Theorem C11_every_byte_once : forall cm segs es n f rows,
               (flat_map em_cells (filter (fun e => N.eqb (em_file e) (f_name f)) (emissions cm es))).
 Proof. exact every_byte_once. Qed.
 Print Assumptions C11_every_byte_once.
+
+(* ... and over all files of the code map together (distinct names): every emitted byte appears in the listings exactly
+   once. *)
+Theorem C11_all_bytes_once : forall cm segs es n l,
+  wf_emission segs es -> spans_ok cm es -> (0 < n)%nat -> NoDup (map f_name cm) ->
+  to_listing cm (map fst es) segs n = Ok l ->
+  Permutation (flat_map (fun fr => flat_map row_cells (snd fr)) l) (flat_map em_cells (emissions cm es)).
+Proof. exact all_bytes_once. Qed.
+Print Assumptions C11_all_bytes_once.
 
 (* Whatever the source map and the segments are: if to_listing does not panic, its rows are, for every source line of
    the file in order, a non-empty group of rows of that line, exactly the first of which carries the source text. *)
@@ -62,6 +71,42 @@ Theorem C11_address_to_offset : forall sm pc,
 Proof. exact address_to_offset_spec. Qed.
 Print Assumptions C11_address_to_offset.
 
+(* wf_emission is what the emitter establishes: for ALL operation sequences of a pass (emissions into any segments,
+   relocated or not, `* =`, scope changes, nested macro invocations in either attribution mode) that end without
+   "segment out of range" and never overwrite bytes emitted earlier in the pass, the source map has one entry per
+   emission and, paired with the emitted bytes, is a well-formed emission over the final segments. *)
+Theorem C11_wf_emission : forall ops c0 c,
+  c_sm c0 = [] -> run ops c0 = Done c -> no_overwrite ops c0 = true ->
+  length (c_sm c) = length (emitted ops c0) /\
+  wf_emission (view_segments c) (combine (c_sm c) (emitted ops c0)).
+Proof. exact wf_emission_of_run. Qed.
+Print Assumptions C11_wf_emission.
+
+(* ... hence the listing of what the emission model produced is the spec's listing of its emissions. *)
+Theorem C11_listing_of_emission : forall ops c0 c cm n f,
+  c_sm c0 = [] -> run ops c0 = Done c -> no_overwrite ops c0 = true ->
+  spans_ok cm (combine (c_sm c) (emitted ops c0)) -> (0 < n)%nat ->
+  to_listing_file cm (c_sm c) (view_segments c) n f =
+  Ok (spec_rows n (num_lines f) (f_name f) (emissions cm (combine (c_sm c) (emitted ops c0)))).
+Proof. exact listing_of_emission. Qed.
+Print Assumptions C11_listing_of_emission.
+
+(* The .lst files of `mos build`: "<file stem>.lst" in the target directory, created one after the other.
+   KNOWN FINDING (Known_listing_name_collision, recorded in known_findings.txt): two source files with the same stem in
+   different directories are written to the same .lst file; the earlier listing is lost, so its bytes appear in no
+   listing file. *)
+Theorem C11_lst_files_refuted :
+  exists (ls : list (source_path * N)) p c, In (p, c) ls /\ lookup (listing_name p) (write_listings ls []) <> Some c.
+Proof. exact lst_files_refuted. Qed.
+Print Assumptions C11_lst_files_refuted.
+
+(* Outside that class every file's listing is in the target directory, whatever was there before. *)
+Theorem C11_lst_files : forall (C : Type) (ls : list (source_path * C)) t,
+  Known_listing_name_collision (map fst ls) = false ->
+  forall p c, In (p, c) ls -> lookup (listing_name p) (write_listings ls t) = Some c.
+Proof. exact @lst_files_guarded. Qed.
+Print Assumptions C11_lst_files.
+
 (* ---- non-vacuity and the former defects (F-C11a, F-C11b), now positive on the repaired code ------------------- *)
 Definition ex_file : file := mkFile 0 [110;111;112;10;46;98;10]%N.          (* "nop\n.b\n": 3 lines *)
 (* relocated segment 7: emitted at $1000.., target $8000..; a second segment 8 whose emit range overlaps it *)
@@ -87,3 +132,17 @@ Example C11_example_relocated_overlap :
   to_listing_file [ex_file] (map fst ex_es) ex_segs 8 ex_file =
   Ok [mkRow 0 (Some 32768) [234]%N true; mkRow 1 (Some 32769) [96]%N true; mkRow 1 (Some 4097) [238]%N false; mkRow 2 None [] true].
 Proof. vm_compute. reflexivity. Qed.
+
+(* a pass over two segments (7 relocated: emitted at $1000, target $8000; 8 at $1001), a macro invoked in listing mode
+   whose body emits inside a nested scope: no overwrite, run completes, entries re-attributed to the invocation *)
+Definition ex_ops : list op :=
+  [OSegment 7; OEmit (mkSpan 0 0 3) [234]%N; OMacroBegin 5 (mkSpan 0 4 6); OScope 6; OEmit (mkSpan 0 0 3) [96]%N; OScope 5; OMacroEnd;
+   OSegment 8; OSetPc 4097; OEmit (mkSpan 0 4 6) [238]%N].
+Definition ex_c0 : ctx := mkCtx [(7%N, seg_new 4096 32768); (8%N, seg_new 4096 4096)] None 0 [] [] true.
+Example C11_example_run :
+  no_overwrite ex_ops ex_c0 = true /\
+  match run ex_ops ex_c0 with
+  | Done c => c_sm c = map fst ex_es /\ emitted ex_ops ex_c0 = map snd ex_es /\ view_segments c = ex_segs
+  | _ => False
+  end.
+Proof. vm_compute. repeat split. Qed.
